@@ -50,6 +50,44 @@ def doc_of(case):
     return "".join(out)
 
 
+INBAND = "\u00fe\u8268\u8269\x01\x02\x03\x04\x05\x06\x07\x08"
+
+
+def diffsig(a, b):
+    """canonical description of how b differs from a"""
+    import difflib
+
+    parts = []
+    for tag, i1, i2, j1, j2 in difflib.SequenceMatcher(None, a, b, autojunk=False).get_opcodes():
+        if tag == "equal":
+            continue
+        where = "^" if i1 == 0 else ("$" if i2 == len(a) else "")
+        parts.append(f"{where}{a[i1:i2]!r}->{b[j1:j2]!r}")
+    return ";".join(parts)
+
+
+def _roundtrip(doc, obs):
+    """returns True if violated; fills obs"""
+    from pymarkdown.transform_markdown.transform_to_markdown import TransformToMarkdown
+
+    try:
+        tokens = tokenizer().transform(doc, show_debug=False)
+    except Exception as exc:  # noqa
+        obs["exception"] = _site(exc)
+        return False
+    obs["tokens"] = " ".join(t.token_name for t in tokens)
+    try:
+        regen = TransformToMarkdown().transform(tokens)
+    except Exception as exc:  # noqa
+        obs["regen_exception"] = _site(exc)
+        return True
+    obs["regen"] = regen
+    if regen != doc:
+        obs["diff"] = diffsig(doc, regen)
+        return True
+    return False
+
+
 def replay(case):
     """Returns {'violates': bool, 'observed': {...}} for the case's property."""
     from pymarkdown.transform_markdown.transform_to_markdown import TransformToMarkdown
@@ -68,13 +106,14 @@ def replay(case):
     if prop == "C01":
         return {"violates": False, "observed": obs}
     if prop == "C02":
-        try:
-            regen = TransformToMarkdown().transform(tokens)
-        except Exception as exc:  # noqa
-            obs["regen_exception"] = _site(exc)
-            return {"violates": True, "observed": obs}
-        obs["regen"] = regen
-        return {"violates": regen != doc, "observed": obs}
+        bad = _roundtrip(doc, obs)
+        if bad and any(ch in INBAND for ch in doc):
+            # differential: the same document with the reserved in-band characters replaced
+            neutral = "".join("x" if ch in INBAND else ch for ch in doc)
+            nobs = {"doc": neutral}
+            nbad = _roundtrip(neutral, nobs)
+            obs["neutral"] = {"violates": nbad, "observed": nobs}
+        return {"violates": bad, "observed": obs}
     if prop == "C04":
         why = rstack.check(tokens)
         obs["why"] = why
